@@ -14,12 +14,37 @@ contracts = {
  "Scheduler._exec_job_main_thread": dict(where=f"{S}:Scheduler._exec_job_main_thread",
     params={"self": REF, "job": REF, "eval_args": OBJ},
     ensures=["implies(old(self._dryrun), self._pending_jobs == old(self._pending_jobs))", "self._dryrun == old(self._dryrun)"],
-    at_call={"submit": ["not self._dryrun"], "submit_script": ["not self._dryrun"]}),
+    at_call={"submit": ["not self._dryrun"], "submit_script": ["not self._dryrun"]},
+    ghost_local={"acted": BOOL, "cp": OBJ}, ghost_init=["not acted"],
+    on_call={"reject_job": "acted = True"}, after_call={("Scheduler.done_job", 0): "acted = True"},
+    lib={"self._check_pending_job(": lambda e, n, st, old: check_pending(e, n, st, old)},
+    post_hooks={"dry-run-stops-only-where-a-real-run-would-submit": lambda eng, st, entry: dry_stop(eng, st, entry)}),
  "Scheduler._done_job_main_thread": dict(where=f"{S}:Scheduler._done_job_main_thread",
     params={"self": REF, "job": REF, "result": OBJ, "job_tags": OBJ},
     requires=["implies(self._dryrun, job.was_cached)"], asserts_checked=["self._dryrun"],
     lib={"self._postprocess_result(": lambda e, n, st, old: postprocess_site(e, n, st, old)}),
 }
+
+
+def check_pending(eng, n, st, old):
+    r = eng.opaque("pending_twin")
+    st.ghost["cp"] = r
+    st.ver += 1
+    return r
+
+
+def dry_stop(eng, st, entry):
+    """a dry run that neither rejected the job, nor found it cached, nor collapsed it onto a running twin has reached the
+    point where a real run would hand the job to an executor: the executor exists and supports the job"""
+    self_, job = entry.env["self"], entry.env["job"]
+    dry = f"(select {eng.field(entry, '_dryrun').s} {self_.s})"
+    cached = f"(select {eng.field(st, 'was_cached').s} {job.s})"
+    none_cp = eng.ctx.app("is_none", [OBJ], BOOL, [st.ghost["cp"]]).s
+    ante = f"(and {dry} (not {st.ghost['acted'].s}) {none_cp} (not {cached}))"
+    ex = st.env.get("executor")
+    if not isinstance(ex, T):
+        return T(BOOL, f"(not {ante})")
+    return T(BOOL, f"(=> {ante} {eng.truth(ex).s})")
 
 
 def postprocess_site(eng, n, st, old):
@@ -52,3 +77,10 @@ ASSUMPTIONS = [
     "the only call of a task function inside scheduler.py is task.func(...) of scheduler tasks (cond/seq/catch...) in _evaluate_apply: these are scheduler-internal and do run during a dry run; user task functions are called only by executors (call-site scan)",
     "second sentence of the property (a dry run predicts the real run) compares two executions and is not claimed",
 ]
+
+import importlib.util, os
+_spec = importlib.util.spec_from_file_location("contracts_c12_for_c28", os.path.join(os.path.dirname(__file__), "c12.py"))
+_c12 = importlib.util.module_from_spec(_spec)
+_spec.loader.exec_module(_c12)
+# a completed dry run returns what a real run would only if cache lookups behave identically in both modes (kernel: _get_cache)
+MODULES = [(MODULE, VERIFY), (_c12.MODULE, ["Scheduler._get_cache"])]
